@@ -154,10 +154,14 @@ class StreamStatistics:
             self.max_seq = packet.sequence_number
 
             if packet.timestamp != self._last_timestamp and self.packets_received > 1:
-                diff = abs(
+                # RFC 3550 A.8: the difference is computed modulo 2^32, as RTP
+                # timestamps wrap around, then read as a signed 32-bit value.
+                diff = (
                     (arrival - self._last_arrival)
                     - (packet.timestamp - self._last_timestamp)
-                )
+                ) & 0xFFFFFFFF
+                if diff & 0x80000000:
+                    diff = 0x100000000 - diff
                 self._jitter_q4 += diff - ((self._jitter_q4 + 8) >> 4)
 
             self._last_arrival = arrival
